@@ -229,6 +229,9 @@ OP = st.one_of(
     # `del` of a link that holds a default OBJECT: the fresh default appears, the old one is gone; then the link is cleared
     st.tuples(st.just("del_default_link"), O),
     st.tuples(st.just("add_trait"), O, st.sampled_from(["extra", "extra_meta", "xchild", "xmchild", "xmchild"]), P),
+    # add_trait over a name that ALREADY exists on the object (a class trait on the observed path), with an equivalent
+    # definition: nothing about reachability changes, every later change of that trait must still be seen
+    st.tuples(st.just("readd_trait"), O, st.sampled_from(["child", "value", "mchild", "children", "table", "group"])),
 ).map(list)
 
 
@@ -394,6 +397,17 @@ def run(case, ctx):
                     n.mdef = None
                     r = Reach(root, paths)
                 break          # (histories are cut here: whatever F48 left behind would only blur later steps)
+            if k == "readd_trait":
+                name = op[2]
+                _ = (n.child, n.children, n.table, n.group, n.mchild, n.value)      # (materialised before, as for every op)
+                redefinition = {"child": lambda: Instance(HasTraits), "value": lambda: Int, "mchild": lambda: Instance(HasTraits, metac=True),
+                                "children": lambda: List(Instance(HasTraits)), "table": lambda: Dict(Str, Instance(HasTraits)),
+                                "group": lambda: Set(Instance(HasTraits))}[name]()
+                n.add_trait(name, redefinition)
+                interesting = True
+                ctx.label("existing-trait-redefined-on-instance")
+                probe(op)
+                continue
             if k == "add_trait":
                 name = op[2]
                 if n.trait(name) is not None and name in n.__dict__.get("_added", ()):
